@@ -94,7 +94,7 @@ Definition registry := list (str * list N).   (* .exception_registry.json: clien
 
 Inductive content :=
 | CEmpty                                  (* "" written by the __init__.py loops *)
-| CRichInit (core : str)                  (* force path only, when core_package was given *)
+| CRichInit (core : str)                  (* _write_client_init, when core_package was given *)
 | CAliases (codes : list N)               (* core/exception_aliases.py *)
 | CCoreInit (codes : list N)              (* core/__init__.py re-exports the alias classes *)
 | CRegistry (r : registry)
@@ -247,30 +247,40 @@ Definition emitted (g : gen_input) (root_init : content) (aliases : list N) (reg
 Section Modes.
   Variable san : str -> str.
 
+  Definition root_init (g : gen_input) : content := if g_core_given g then CRichInit (g_client g) else CEmpty.
+
   (* force / first-run path: out_dir is removed first (with the registry when the core lives inside it);
      EndpointsEmitter.emit runs TWICE on the same IR objects (the second call sits in the f-string of a
      progress message), the mocks emitter then sees the twice de-duplicated ids (harmless since the fix of
-     F07a: the pass is the identity on its own collision-free output); the rich __init__.py is
-     written last when core_package was given. *)
+     F07a: the pass is the identity on its own collision-free output); _write_client_init writes the rich
+     __init__.py last when core_package was given.  [found] = the registry in the core directory before the run. *)
   Definition tree_force (g : gen_input) (found : registry) : atree :=
     let found' := if core_inside_out g then [] else found in
     let (aliases, reg) := exceptions_emit g found' in
-    emitted g (if g_core_given g then CRichInit (g_client g) else CEmpty) aliases reg
-            (dedup_ops san (dedup_ops san (map snd (g_ops g)))).
+    emitted g (root_init g) aliases reg (dedup_ops san (dedup_ops san (map snd (g_ops g)))).
 
-  (* temp-dir path: fresh temporary project root (no registry to read), every emitter once, no rich
-     __init__.py *)
-  Definition tree_temp (g : gen_input) : atree :=
-    let (aliases, reg) := exceptions_emit g [] in
-    emitted g CEmpty aliases reg (dedup_ops san (map snd (g_ops g))).
+  (* temp-dir path: fresh temporary project root; since the fix of F09d the registry of the EXISTING core
+     directory ([found]) is copied into the temporary core first; every emitter once; since the fix of F09c
+     _write_client_init is called here as well. *)
+  Definition tree_temp (g : gen_input) (found : registry) : atree :=
+    let (aliases, reg) := exceptions_emit g found in
+    emitted g (root_init g) aliases reg (dedup_ops san (map snd (g_ops g))).
 
   Definition under (d : path) (t : atree) : atree := filter (fun pc => is_prefix_path d (fst pc)) t.
 
+  (* the .exception_registry.json found in the existing core directory (absent / unreadable as a registry: {}) *)
+  Definition existing_registry (g : gen_input) (existing : atree) : registry :=
+    match tlookup (g_core g ++ [s_registry_json]) existing with
+    | Some (CRegistry r) => r
+    | _ => []
+    end.
+
   (* the two _show_diffs calls of the non-force path *)
   Definition rerun_differing (g : gen_input) (existing : atree) : list path :=
-    differing_g content_eqb (under (g_out g) existing) (under (g_out g) (tree_temp g))
+    let temp := tree_temp g (existing_registry g existing) in
+    differing_g content_eqb (under (g_out g) existing) (under (g_out g) temp)
     ++ (if path_eqb (g_core g) (g_out g) then []
-        else differing_g content_eqb (under (g_core g) existing) (under (g_core g) (tree_temp g))).
+        else differing_g content_eqb (under (g_core g) existing) (under (g_core g) temp)).
 
   Inductive outcome := ROk | RDifferences.
   (* generate(force=False) over an existing out_dir: the file system is returned unchanged on both
@@ -281,24 +291,12 @@ Section Modes.
     | _ => (RDifferences, existing)
     end.
 
-  (* ---- guards ---- *)
-  Definition guard_F09c (g : gen_input) : bool := negb (g_core_given g).
-  (* no other client is registered in the core this run reads *)
-  Definition guard_F09d (g : gen_input) (found : registry) : bool :=
-    negb (g_shared g) || core_inside_out g ||
-    match found with
-    | [] => true
-    | [(k, _)] => str_eqb k (g_client g)
-    | _ => false
-    end.
   Fixpoint nodupb (l : list str) : bool :=
     match l with [] => true | x :: r => negb (mem_str x r) && nodupb r end.
   (* the de-duplication pass produced distinct method names — what the real loop guarantees whenever it
      terminates; in the model this can only fail when the suffix search runs out of fuel (not a finding) *)
   Definition dedup_total (g : gen_input) : bool := nodupb (map san (dedup_ops san (map snd (g_ops g)))).
-  Definition guard_modes (g : gen_input) (found : registry) : bool :=
-    guard_F09c g && guard_F09d g found.
   (* layout sanity (not a finding): no two emitted files share a path — false e.g. when core_package equals
      the output package, where the two __init__.py are one file and the list model is not exact *)
-  Definition wf_layout (g : gen_input) : bool := wf_tree (tree_temp g).
+  Definition wf_layout (g : gen_input) : bool := wf_tree (tree_temp g []).
 End Modes.
